@@ -164,6 +164,9 @@ Top:
 		if int(p.Level) <= level {
 			return append(b, '#')
 		}
+		if printMaxDepth < level {
+			tooDeepPanic()
+		}
 		if p.Pretty {
 			b = p.appendTree(b, p.createTree(to, 0), 0, 0)
 		} else {
@@ -358,6 +361,16 @@ func uintVarValue(v Object, varName string) (vv uint) {
 	return
 }
 
+// printMaxDepth is the nesting depth at which printing gives up with an error
+// instead of overflowing the stack, a circular structure has no end.
+const printMaxDepth = 100000
+
+func tooDeepPanic() {
+	ErrorPanic(NewScope(), 0,
+		"the object is nested more than %d levels deep and may be circular, bind *print-level* to print it",
+		printMaxDepth)
+}
+
 func (p *Printer) createTree(obj Object, level int) *node {
 	n := node{value: obj}
 Top:
@@ -366,6 +379,9 @@ Top:
 		if int(p.Level) <= level {
 			obj = Symbol("#")
 			goto Top
+		}
+		if printMaxDepth < level {
+			tooDeepPanic()
 		}
 		if 0 < len(to) {
 			l2 := level + 1
